@@ -117,11 +117,22 @@ def run_case(chk, c, aitems, ameta, ditems, dmeta):
         if c["kind"] == "apply":
             from quantarhei.qm import Operator
             ham, RT = tensor_object(c, K, Lm, Ld, H)
-            out_ops = np.array(RT.apply(Operator(data=rho.copy())).data)
+            # the class of the object acted upon: a plain operator or a density-matrix object holding the same (in general not
+            # Hermitian) data, the way EvolutionSuperOperator fills a ReducedDensityMatrix with one unit element
+            wrap = ["Operator", "ReducedDensityMatrix", "DensityMatrix"][c["seed"] % 3]
+
+            def operand():
+                if wrap == "Operator":
+                    return Operator(data=rho.copy())
+                o = (qr.ReducedDensityMatrix if wrap == "ReducedDensityMatrix" else qr.DensityMatrix)(dim=n)
+                o.data[:, :] = rho
+                return o
+            chk.count("apply:operand:" + wrap)
+            out_ops = np.array(RT.apply(operand()).data)
             RT.convert_2_tensor()
             if RT.as_operators:
                 chk.violation("convert:flag", "convert_2_tensor leaves as_operators set", "monitor", c)
-            out_tens = np.array(RT.apply(Operator(data=rho.copy())).data)
+            out_tens = np.array(RT.apply(operand()).data)
             if not np.array_equal(out_ops, out_tens):
                 chk.violation("apply:forms_differ", "%s: apply() in operator form and after convert_2_tensor() differ by %g on integer data (case %s)"
                               % (c["cls"], np.max(np.abs(out_ops - out_tens)), json.dumps(c)), "monitor", c)
